@@ -26,12 +26,23 @@ EXTENDS Naturals, Sequences, FiniteSets
 CONSTANTS Uris,        \* abstract document names, e.g. {"a", "b", "c"}
           MaxSteps
 
-VARIABLES docs, q, ans, steps
-vars == <<docs, q, ans, steps>>
+VARIABLES docs, coll, dflt, q, ans, steps
+vars == <<docs, coll, dflt, q, ans, steps>>
+
+(* collections (XPath 3.1 2.1.2 "available collections" / "default collection"; F&O 14.6.3 fn:collection):   *)
+(*   coll  the named collection http://h/d/c1: "undef" or the set of its documents (given in name order)    *)
+(*   dflt  the default collection: "undef" or a set of documents                                            *)
+(* collection(uri) of an unknown URI and collection() without a default raise FODC0002; the documents of a  *)
+(* collection are the caller's document objects, so a document that is also an available document is the   *)
+(* SAME node (is) and is not counted twice in a union.                                                      *)
+Undef == {"#undef"}      \* a set, so that it compares with the other values
+CollVals == {Undef} \cup SUBSET Uris
 
 Spellings == {"abs", "rel", "dotdot"}     \* http://h/d/a.xml | a.xml | ../d/a.xml : all resolve to the same absolute URI
 Forms == {"available", "doc", "same", "docuri", "rootback"}
 PairForms == {"is", "ordered", "count"}
+CollForms == {"ccount", "cnames", "cmissing", "dcount", "dempty"}
+CollDocForms == {"cisdoc", "cunion"}
 
 Missing == "FODC0002"
 
@@ -48,21 +59,47 @@ PairAnswer(f, u, v) ==
          [] f = "ordered" -> IF u = v THEN "false" ELSE "true"         \* exactly one of u << v, v << u  (xor)
          [] f = "count"   -> IF u = v THEN "1" ELSE "2"                \* count((doc(u), doc(v), doc(u))/ * ): duplicates by identity
 
-Init == docs = {} /\ q = <<"init">> /\ ans = "none" /\ steps = 0
+Card(S) == Cardinality(S)
+CollAnswer(f) ==
+  CASE f = "ccount"   -> IF coll = Undef THEN Missing ELSE <<"n", Card(coll)>>       \* count(collection("c1"))
+    [] f = "cnames"   -> IF coll = Undef THEN Missing ELSE <<"set", coll>>           \* root element names of its documents
+    [] f = "cmissing" -> Missing                                                      \* collection("c2"): never defined
+    [] f = "dcount"   -> IF dflt = Undef THEN Missing ELSE <<"n", Card(dflt)>>       \* count(collection())
+    [] f = "dempty"   -> IF dflt = Undef THEN Missing ELSE <<"n", Card(dflt)>>       \* count(collection(()))
 
-Add(u)    == /\ u \notin docs /\ docs' = docs \cup {u} /\ q' = <<"add", u>> /\ ans' = "none"
-Remove(u) == /\ u \in docs    /\ docs' = docs \ {u}    /\ q' = <<"remove", u>> /\ ans' = "none"
-Ask(f, sp, u)     == /\ UNCHANGED docs /\ q' = <<"ask", f, sp, u>>     /\ ans' = Answer(f, u)
-AskPair(f, u, v)  == /\ UNCHANGED docs /\ q' = <<"pair", f, u, v>>     /\ ans' = PairAnswer(f, u, v)
+CollDocAnswer(f, u) ==
+  IF coll = Undef THEN Missing
+  ELSE CASE f = "cisdoc" -> IF u \in coll THEN (IF u \in docs THEN "true" ELSE Missing)   \* collection("c1")[name(*) = u] is doc(u)
+                            ELSE IF u \in docs THEN "empty"
+                            ELSE "either"      \* empty left operand AND failing right operand: XPath 3.1 2.3.4 allows both outcomes
+         [] f = "cunion" -> IF u \in docs THEN <<"n", Card(coll \cup {u})>> ELSE Missing   \* count(collection("c1") | doc(u))
+
+Init == docs = {} /\ coll = Undef /\ dflt = Undef /\ q = <<"init">> /\ ans = "none" /\ steps = 0
+
+Add(u)    == /\ u \notin docs /\ docs' = docs \cup {u} /\ q' = <<"add", u>> /\ ans' = "none" /\ UNCHANGED <<coll, dflt>>
+Remove(u) == /\ u \in docs    /\ docs' = docs \ {u}    /\ q' = <<"remove", u>> /\ ans' = "none" /\ UNCHANGED <<coll, dflt>>
+SetColl(c)    == /\ c # coll /\ coll' = c /\ q' = <<"setcoll">> /\ ans' = "none" /\ UNCHANGED <<docs, dflt>>
+SetDefault(c) == /\ c # dflt /\ dflt' = c /\ q' = <<"setdefault">> /\ ans' = "none" /\ UNCHANGED <<docs, coll>>
+Ask(f, sp, u)     == /\ UNCHANGED <<docs, coll, dflt>> /\ q' = <<"ask", f, sp, u>>     /\ ans' = Answer(f, u)
+AskPair(f, u, v)  == /\ UNCHANGED <<docs, coll, dflt>> /\ q' = <<"pair", f, u, v>>     /\ ans' = PairAnswer(f, u, v)
+
+AskColl(f)       == /\ UNCHANGED <<docs, coll, dflt>> /\ q' = <<"coll", f>>       /\ ans' = CollAnswer(f)
+AskCollDoc(f, u) == /\ UNCHANGED <<docs, coll, dflt>> /\ q' = <<"colldoc", f, u>> /\ ans' = CollDocAnswer(f, u)
 
 Next == /\ steps < MaxSteps /\ steps' = steps + 1
         /\ \/ \E u \in Uris : Add(u) \/ Remove(u)
            \/ \E f \in Forms, sp \in Spellings, u \in Uris : Ask(f, sp, u)
            \/ \E f \in PairForms, u \in Uris, v \in Uris : AskPair(f, u, v)
+           \/ \E c \in CollVals : SetColl(c) \/ SetDefault(c)
+           \/ \E f \in CollForms : AskColl(f)
+           \/ \E f \in CollDocForms, u \in Uris : AskCollDoc(f, u)
 Spec == Init /\ [][Next]_vars
 
 ---------------------------------------------------------------------------
-TypeOK == docs \subseteq Uris /\ steps \in 0..MaxSteps
+TypeOK == docs \subseteq Uris /\ steps \in 0..MaxSteps /\ coll \in CollVals /\ dflt \in CollVals
+
+(* a union with an available document never counts a node twice *)
+InvUnion == \A u \in docs : coll # Undef => CollDocAnswer("cunion", u) = <<"n", Card(coll) + (IF u \in coll THEN 0 ELSE 1)>>
 
 (* doc-available is true exactly when doc returns a node *)
 InvAvailable == \A u \in Uris : (Answer("available", u) = "true") = (Answer("doc", u) # Missing)
